@@ -251,12 +251,17 @@ def class_source(c, prog):
         lines.append(f"{ind}class {name}:")
         if kind == "slots":
             lines.append(f"{ind}    __slots__ = ({''.join(repr(fn) + ', ' for fn, _ in fields)})")
-        for fn, ft in fields:
-            lines.append(f"{ind}    {fn}: {ann(ft)}")
+        init_hints = kind == "plain" and "init_hints" in c.get("extras", [])
+        if not init_hints:
+            for fn, ft in fields:
+                lines.append(f"{ind}    {fn}: {ann(ft)}")
         params = []
         for fn, ft in fields:
-            params.append(f"{fn}={val_src(defaults[fn])}" if fn in defaults and not isinstance(defaults[fn], list) else
-                          (f"{fn}=None" if fn in defaults else fn))
+            # init_hints: the class has NO class-level annotations, its field types are declared on the constructor only (and are
+            # strings at run time under `from __future__ import annotations`)
+            pn = f"{fn}: {ann(ft)}" if init_hints else fn
+            params.append(f"{pn}={val_src(defaults[fn])}" if fn in defaults and not isinstance(defaults[fn], list) else
+                          (f"{pn}=None" if fn in defaults else pn))
         lines.append(f"{ind}    def __init__(self, {', '.join(params)}):")
         for fn, ft in fields:
             if fn in defaults and isinstance(defaults[fn], list):
